@@ -170,7 +170,10 @@ func VerifC06Include() {
 	vrtAssert("no-include-left", !hasInclude)
 }
 
-// VerifC06Conflict: same resource on both sides: identical => accepted, different => error.
+// VerifC06Conflict: same resource on both sides: identical => accepted, different => error. The second
+// definition comes from the parent itself, from a second included file, or from the same file listed by a
+// second entry of the include section that differs in its env_file (so the file resolves differently or
+// identically, as chosen).
 func VerifC06Conflict() {
 	root := vrtRoot()
 	w := root + "/w"
@@ -178,9 +181,10 @@ func VerifC06Conflict() {
 	body := func(k int) any {
 		switch kind {
 		case "services":
-			return map[string]any{"image": []string{"i", "j", "i"}[k]}
+			return map[string]any{"image": []string{"i", "j", "k"}[k]}
 		case "secrets", "configs":
-			return map[string]any{"file": []string{"/f", "/g", "/f"}[k]}
+			// the third body takes its value from the environment of the load
+			return []any{map[string]any{"file": "/f"}, map[string]any{"file": "/g"}, map[string]any{"environment": "CV"}}[k]
 		}
 		switch k {
 		case 0:
@@ -193,10 +197,40 @@ func VerifC06Conflict() {
 	nb := 3
 	ka := vrtChoice("bodyA", nb)
 	kb := vrtChoice("bodyB", nb)
-	if kind == "services" || kind == "secrets" || kind == "configs" {
+	route := vrtChoice("secondRoute", 3) // B arrives from the parent itself, from a second include, or from the same file listed twice
+	env := types.Mapping{"CV": "from-env"}
+	if route == 2 {
+		// one file, two entries: the entry's env_file decides which body the file resolves to
+		var tmpl any
+		switch kind {
+		case "services":
+			tmpl = map[string]any{"image": "${SEL}"}
+		case "secrets", "configs":
+			tmpl = map[string]any{"file": "/${SEL}"}
+		default:
+			tmpl = map[string]any{"driver": "${SEL}"}
+		}
 		vrtAssume(ka < 2 && kb < 2)
+		a := map[string]any{kind: map[string]any{"r": tmpl}}
+		if kind != "services" {
+			a["services"] = map[string]any{"sa": map[string]any{"image": "i"}}
+		}
+		vrtYamlFile(w+"/a/inc.yaml", a)
+		vals := []string{"d", "e"}
+		vrtFile(w+"/a/one.env", "SEL="+vals[ka]+"\n")
+		vrtFile(w+"/a/two.env", "SEL="+vals[kb]+"\n")
+		main := map[string]any{"services": map[string]any{"own": map[string]any{"image": "i"}},
+			"include": []any{map[string]any{"path": "a/inc.yaml", "env_file": "a/one.env"}, map[string]any{"path": "a/inc.yaml", "env_file": "a/two.env"}}}
+		_, err := tcLoad(env, nil, main)
+		vrtObserve("err", err != nil)
+		if ka == kb {
+			vrtAssert("identical-redefinition-accepted", err == nil)
+		} else {
+			vrtAssert("different-redefinition-is-conflict", err != nil)
+		}
+		return
 	}
-	second := vrtChoice("secondRoute", 2) == 1 // B arrives from the parent itself or from a second include
+	second := route == 1
 	a := map[string]any{kind: map[string]any{"r": body(ka)}}
 	bdoc := map[string]any{kind: map[string]any{"r": body(kb)}}
 	if kind != "services" {
@@ -215,7 +249,7 @@ func VerifC06Conflict() {
 			main[kind] = map[string]any{"r": body(kb)}
 		}
 	}
-	_, err := tcLoad(nil, nil, main)
+	_, err := tcLoad(env, nil, main)
 	vrtObserve("err", err != nil)
 	if ka == kb {
 		vrtCover("identical")
@@ -224,6 +258,39 @@ func VerifC06Conflict() {
 		vrtCover("different")
 		vrtAssert("different-redefinition-is-conflict", err != nil)
 	}
+}
+
+// VerifC06Entries: two entries of one include section that share their first file but list different further
+// files both take effect.
+func VerifC06Entries() {
+	w := vrtRoot() + "/w"
+	v := "x" + vrtString("v", vrtParam("VL", 1), "ab")
+	vrtYamlFile(w+"/svc/compose.yaml", map[string]any{"services": map[string]any{"app": map[string]any{"image": "i" + v}}})
+	vrtYamlFile(w+"/svc/extra1.yaml", map[string]any{"services": map[string]any{"one": map[string]any{"image": "1"}}, "volumes": map[string]any{"v1": nil}})
+	vrtYamlFile(w+"/svc/extra2.yaml", map[string]any{"services": map[string]any{"two": map[string]any{"image": "2"}}, "networks": map[string]any{"n2": nil}})
+	var inc []any
+	switch vrtChoice("entries", 3) {
+	case 0:
+		inc = []any{map[string]any{"path": []any{"svc/compose.yaml", "svc/extra1.yaml"}}, map[string]any{"path": []any{"svc/compose.yaml", "svc/extra2.yaml"}}}
+	case 1:
+		inc = []any{"svc/compose.yaml", map[string]any{"path": []any{"svc/compose.yaml", "svc/extra2.yaml"}}, map[string]any{"path": []any{"svc/compose.yaml", "svc/extra1.yaml"}}}
+	case 2:
+		inc = []any{map[string]any{"path": []any{"svc/compose.yaml", "svc/extra1.yaml", "svc/extra2.yaml"}}, "svc/compose.yaml"}
+	}
+	m, err := tcLoad(nil, nil, map[string]any{"include": inc, "services": map[string]any{"own": map[string]any{"image": "i"}}})
+	vrtObserve("err", err != nil)
+	vrtAssert("loads", err == nil)
+	if err != nil {
+		return
+	}
+	vrtAssert("shared-first-file-loaded", tcSvc(m, "app")["image"] == any("i"+v))
+	vrtAssert("first-entry-further-file-effective", tcSvc(m, "one") != nil)
+	vrtAssert("second-entry-further-file-effective", tcSvc(m, "two") != nil)
+	vols, _ := m["volumes"].(map[string]any)
+	nets, _ := m["networks"].(map[string]any)
+	_, hv := vols["v1"]
+	_, hn := nets["n2"]
+	vrtAssert("resources-of-both-entries", hv && hn)
 }
 
 // VerifC06Cycle: include cycles of length 1..2 are errors; nested acyclic includes compose.
